@@ -121,6 +121,32 @@ def run(ctx):
                         enc_cases.append(('xkey_enc %s %d %s %d %d %s %d %s %s' % (net, priv, wt, ms, k.depth, k.parent_fingerprint.hex(),
                                                                                    k.child_index, k.chain.hex(), kd.hex()), s, True))
                         imports.append((s, net, wt, ms, priv, k, kd))
+    # the same exports in random order on ONE object, mixed with the default-argument forms (nothing cached may leak into another form)
+    for net in (nets if T else rng.sample(nets, 3)):
+        k = HDKey.from_seed(bytes(rng.randrange(256) for _ in range(32)), network=net, witness_type=rng.choice(['legacy', 'p2sh-segwit', 'segwit'])).subkey_for_path("m/1'/2")
+        own_wt, own_ms = k.witness_type, bool(k.multisig)
+        calls = [('args', p_, w_, m_) for p_ in (True, False) for w_ in ('legacy', 'p2sh-segwit', 'segwit') for m_ in (False, True)]
+        calls += [('wif()',), ('wif_public()',), ('wif_private()',), ('wif(is_private=True)',)] * 2
+        rng.shuffle(calls)
+        for c in calls:
+            try:
+                if c[0] == 'args':
+                    s_, priv, wt, ms = k.wif(is_private=c[1], witness_type=c[2], multisig=c[3]), c[1], c[2], c[3]
+                elif c[0] == 'wif()':
+                    s_, priv, wt, ms = k.wif(), False, own_wt, own_ms
+                elif c[0] == 'wif_public()':
+                    s_, priv, wt, ms = k.wif_public(), False, own_wt, own_ms
+                elif c[0] == 'wif_private()':
+                    s_, priv, wt, ms = k.wif_private(), True, own_wt, own_ms
+                else:
+                    s_, priv, wt, ms = k.wif(is_private=True), True, own_wt, own_ms
+            except Exception:
+                ctx.count('no-prefix-for-history-call')
+                continue
+            kd = (b'\0' + k.private_byte) if priv else k.public_byte
+            ctx.count('xkey-export-history')
+            enc_cases.append(('xkey_enc %s %d %s %d %d %s %d %s %s' % (net, priv, wt, ms, k.depth, k.parent_fingerprint.hex(),
+                                                                       k.child_index, k.chain.hex(), kd.hex()), s_, True))
     ctx.compare(enc_cases, 'xkey-export')
 
     res = run_driver(['xkey_dec ' + s for s, *_ in imports])
